@@ -154,6 +154,8 @@ def assemble(keys, values):
 
     if not isinstance(nested, list):
         return nested
+    if len(nested) == 1 and not isinstance(nested[0], list) and np.ndim(nested[0]) == 0:
+        return nested[0]  # 0-d collection: its key list is [(name,)]
     out = conc(nested, 0)
     return out
 
